@@ -18,7 +18,9 @@ RULE = ('C08\'s generated mempool histories plus race rules: a daemon change (bl
         'generated subset, fork, eviction with descendants, arrival, chain of arrivals, flood) is '
         'scheduled to fire at the k-th further daemon call (k = 1..6), so it lands between the '
         'listing and the height re-check, between listing and fetching, between fetch batches, or '
-        'while the block processor is polling; the tape adds daemon latency (to 2 s) and worker-job '
+        'while the block processor is polling; a transaction (with descendants) that vanishes at '
+        'the k-th suspension point and is broadcast again before the next listing, so the next '
+        'refresh sees the racy refresh\'s listing; the tape adds daemon latency (to 2 s) and worker-job '
         'latency (to 0.7 s) so the index is a block behind or ahead and flushes fall between the '
         'two lookup phases. Oracle after every hand-over (stable or not): the server task is '
         'alive (no exception escaped keep_synchronized); every recorded transaction\'s prevouts are '
